@@ -253,7 +253,7 @@ ResOutcomes(p) ==
                         \o <<SetOst("TUNNEL")>> \o ResHeadersProg(i, "none") \o <<Ret("OK")>>)}
                 \cup {O(0, q) : q \in normal(<<>>)}
          ELSE IF p.txs[i].st = "100"
-           THEN {O(0, <<Tp("res_100_continue", i), SetOut("RES_LINE"), SetSp(i, LINE), Seen100(i), Ret("OK")>>)}
+           THEN {O(0, <<RecvFin("s"), Tp("res_100_continue", i), SetOut("RES_LINE"), SetSp(i, LINE), Seen100(i), Ret("OK")>>)}   \* receiver finalised since the D21 fix
                 \cup {O(0, q) : q \in normal(<<>>)}
          ELSE IF p.txs[i].m = "CONNECT" /\ p.txs[i].st = "407"
            THEN {O(0, q) : q \in normal(unblock)}
